@@ -40,6 +40,9 @@ def check(case):
             return Result.discard("build-raises:" + exc_label(ex), classes)
         try:
             sol = P.solve(method=method)
+            if case.get("resolve"):
+                sol = P.solve(method=method)  # the same problem solved again, nothing edited: judged on the second result
+                classes.append("re-solved")
         except Exception as ex:
             return Result.discard("method-refuses-model:" + exc_label(ex), classes)
         classes.append("status:" + sol.status.value)
